@@ -189,6 +189,22 @@ Example C08_shape_example :
   sel_shape_ok (Condorcet.candidates v) 2 (Condorcet.minimax Condorcet.Margins v 2) = true.
 Proof. vm_compute. repeat split; reflexivity. Qed.
 
+(* ... and the cardinal / approval rules answer (no refusal) on ordinary profiles: majority judgment breaks a tie of
+   medians (both tie-breakers), SPAV and PAV fill two of three seats *)
+Example C08_shape_example_cardinal :
+  let cf := {| Cardinal.sc_fn := Cardinal.FMedianLow; Cardinal.sc_unscored := Cardinal.UNone; Cardinal.sc_min_count := 0%Z;
+               Cardinal.sc_trunc := 0%Q; Cardinal.sc_bottom := 0%Q |} in
+  let b := fun x y z : Z => [(1%positive, inject_Z x); (2%positive, inject_Z y); (3%positive, inject_Z z)] in
+  let v : Cardinal.sprofile := [(b 3 3 1, 2); (b 2 4 1, 1); (b 3 3 3, 1)]%Z in
+  let a : Cardinal.aprofile := [([1; 2]%positive, 3 # 1); ([2; 3]%positive, 2 # 1); ([3]%positive, 2 # 1)]%Q in
+  Shape2_proofs.score_cands v = [1; 2; 3]%positive /\
+  Cardinal.majority_judgment false cf v 1 = inl [Cand 2%positive] /\ Cardinal.majority_judgment true cf v 1 = inl [Cand 2%positive] /\
+  Cardinal.majority_judgment false cf v 2 = inl [Cand 1%positive; Cand 2%positive] /\
+  Cardinal.score_voting cf v 2 = inl [Cand 1%positive; Cand 2%positive] /\
+  Shape2_proofs.approval_cands a = [1; 2; 3]%positive /\
+  Cardinal.spav a 2 = Some [2; 3]%positive /\ Cardinal.pav a 2 = Cardinal.AR_ok [Cand 2%positive; Cand 3%positive].
+Proof. vm_compute. repeat split; reflexivity. Qed.
+
 Print Assumptions C08_selection_normal_form.
 Print Assumptions C08_selection_shape.
 Print Assumptions C08_checker_reflects.
